@@ -3,6 +3,7 @@ from __future__ import annotations
 
 import ast
 
+from kvstatic.paths import cz
 from kvstatic.core import Repo, Report, ModelError, AnchorError, norm, qualname_of
 from kvstatic.astutil import (find_all, attr_chain, is_name, call_name, body_no_doc, target_names, parents, enclosing,
                               walk_no_nested_funcs)
@@ -182,7 +183,7 @@ def swap_with_last(rep, cmod):
     if not ok:
         rep.violate('C09.swap', cmod, f, body[0], 'IndexList.__delitem__ must delete the last element directly, otherwise pop the last element, set its .index to the freed position and store it there', node=f)
     g = cmod.func('GrowingList.__setitem__')
-    txt = [norm(s).replace(' ', '').replace('\n', '') for s in body_no_doc(g)]
+    txt = [cz(s) for s in body_no_doc(g)]
     ok = txt == ['ifindex>=len(self):self.extend([None]*(index+1-len(self)))', 'super().__setitem__(index,value)']
     rep.ob('C09.swap', 'GrowingList.__setitem__ grows with None up to index', ok)
     if not ok:
@@ -261,7 +262,7 @@ def removal(rep, cmod):
     order = {t: i for i, t in enumerate([norm(s).replace(' ', '') for s in ast.walk(f) if isinstance(s, ast.stmt)])}
     lin = []
     for s in sorted([s for s in ast.walk(f) if isinstance(s, (ast.Assign, ast.Delete, ast.For))], key=lambda s: (s.lineno, s.col_offset)):
-        lin.append(norm(s).replace(' ', '').replace('\n', ''))
+        lin.append(cz(s))
     need = ['self.driver.outs[self.driver_pin]=None', 'delself.driver.outs[self.driver_pin]',
             'for(i,l)inenumerate(self.driver.outs):l.driver_pin=i', 'self.reader.ins[self.reader_pin]=None',
             'delself.circuit.lines[self.index]', 'self.driver=None', 'self.reader=None', 'self.circuit=None']
@@ -285,7 +286,7 @@ def removal(rep, cmod):
     # squeeze only for forks
     iffs = [i for i in find_all(f, ast.If) if '__fork__' in norm(i.test)]
     ok = len(iffs) == 1 and norm(iffs[0].test).replace(' ', '') == "self.driver.kind=='__fork__'" and \
-        [norm(s).replace(' ', '').replace('\n', '') for s in iffs[0].body][0] == 'delself.driver.outs[self.driver_pin]'
+        [cz(s) for s in iffs[0].body][0] == 'delself.driver.outs[self.driver_pin]'
     rep.ob('C09.remove', 'squeeze only fork drivers', ok)
     if not ok:
         rep.violate('C09.remove', cmod, f, iffs[0] if iffs else 'fork squeeze', 'Line.remove: outputs are squeezed (deleted + renumbered) only for fork drivers', node=f)
@@ -294,7 +295,7 @@ def removal(rep, cmod):
 def ctor_order(rep, cmod):
     rep.rule('C09.ctor', 'constructors: index = len(container) - 1 after the append; implicit pins use free_index() before the line is stored into the pin list')
     f = cmod.func('Line.__init__')
-    seq = [norm(s).replace(' ', '').replace('\n', '') for s in body_no_doc(f) if not (isinstance(s, ast.Expr) and isinstance(s.value, ast.Constant))]
+    seq = [cz(s) for s in body_no_doc(f) if not (isinstance(s, ast.Expr) and isinstance(s.value, ast.Constant))]
     def idx(t):
         return seq.index(t) if t in seq else -1
     a, b = idx('self.circuit.lines.append(self)'), idx('self.index=len(self.circuit.lines)-1')
